@@ -645,6 +645,27 @@ func (w *world) step(i int, op Op) error {
 			if wasDead && opErr == nil && !w.locked {
 				return Errf("%s succeeded although the connection to the underlying agent was destroyed", where)
 			}
+			// whatever went wrong underneath: an answer that does come back never contains a certificate
+			// outside its validity window, and no signature is made with one
+			if opErr == nil && !w.locked && !w.hasLapsing {
+				var shownBlobs [][]byte
+				for _, k := range keys {
+					shownBlobs = append(shownBlobs, k.Blob)
+				}
+				for _, sg := range signers {
+					shownBlobs = append(shownBlobs, sg.PublicKey().Marshal())
+				}
+				if (op.Kind == "sign" || op.Kind == "signvia") && key != nil {
+					shownBlobs = append(shownBlobs, key.Marshal())
+				}
+				for _, b := range shownBlobs {
+					if pk, perr := ssh.ParsePublicKey(b); perr == nil {
+						if c, isCert := pk.(*ssh.Certificate); isCert && !CertValidAt(c, now) {
+							return Errf("%s (disturbed by a fault of the underlying agent) still answered with / signed with a certificate outside its validity window: %s", where, describeBlob(string(b)))
+						}
+					}
+				}
+			}
 		case "forward", "extension":
 			// a reply that never arrived completely (connection closed, cut inside the frame, declared
 			// length beyond the limit) must come back as an error, not as a shorter reply
